@@ -117,6 +117,17 @@ Theorem C12_close_all : forall hm h, NoDup (accepted h) ->
 Proof. exact close_all_spec. Qed.
 Print Assumptions C12_close_all.
 
+(* "whichever poller": what Poll / EPoll make of one kernel report (Model.pemit, tied to the real pollers by
+   scripted poll results) never puts the hang-up before readable input: with IN set no _disconnect is emitted for
+   the report, and the server's first reaction is the recv() and the read event carrying its data *)
+Theorem C12_hangup_after_reads : forall hm h s eout ehup d w, NoDup (accepted h) ->
+  In s (clients (fst (run hm h))) -> d <> [] ->
+  forallb (fun i => negb (is_hangup_stim i)) (pemit s true eout ehup (RData d) w) = true /\
+  exists post, snd (run_from hm (fst (run hm h)) [] (pemit s true eout ehup (RData d) w))
+               = OCall (CRecv s (RData d)) :: OEv (ERead s d) :: post.
+Proof. exact hangup_after_reads. Qed.
+Print Assumptions C12_hangup_after_reads.
+
 (* clients: #connected = #disconnected (+1 while connected), for every history of connect results, recv/send
    outcomes, poller hang-ups, writes and closes (also after the disconnect) in which connect is not requested
    while connected *)
@@ -178,6 +189,10 @@ Example C12_ex_terminal :
   /\ terminal 1 (fst (step true x (SClose 1))) (SWritable 1 (WAcc 9%N)) = true
   /\ Forall (fun i => touches 0 i = false) [SRead 1 REof; SWrite 1 3%N; SAccept 2; SClose 2; SSnap].
 Proof. vm_compute. repeat split; auto. repeat constructor. Qed.
+Example C12_ex_pemit :
+  pemit 0 true true true (RData [1%N]) WTrans = [SRead 0 (RData [1%N]); SWritable 0 WTrans]
+  /\ pemit 0 false true true RWould WTrans = [SDrop 0; SDisc 0].
+Proof. vm_compute. auto. Qed.
 Example C12_ex_client :
   connect_when_down cinit ex_c = true
   /\ snd (crun ex_c) = [KConnected; KSend 10%N; KErr; KDisconnected; KErr; KConnected; KDisconnected]
